@@ -671,6 +671,21 @@ impl Prioritize {
         // TODO: make this more efficient?
         while let Some(frame) = stream.pending_send.pop_front(buffer) {
             tracing::trace!(?frame, "dropping");
+
+            if let Frame::PushPromise(ref pp) = frame {
+                // The promise will never be sent, so nothing may ever be sent
+                // on the promised stream: cancel it, otherwise it waits for
+                // its PUSH_PROMISE forever and is never released.
+                if let Some(mut pushed) = stream.store_mut().find_mut(&pp.promised_id()) {
+                    pushed.is_pending_push = false;
+                    let id = pushed.id;
+                    pushed
+                        .state
+                        .set_reset(id, Reason::CANCEL, Initiator::Library);
+                    self.clear_queue(buffer, &mut pushed);
+                    pushed.notify_send();
+                }
+            }
         }
 
         stream.buffered_send_data = 0;
